@@ -217,9 +217,12 @@ def float_value(x: object) -> float:
 
 def num_value(x: object) -> float:
     x = resolve1(x)
-    if not isinstance(x, (int, float)):  # == utils.isnumber(x)
+    if not isinstance(x, (int, float)) or (
+        # an integer that float arithmetic cannot take is no usable number
+        isinstance(x, int) and x.bit_length() > 1000
+    ):
         if settings.STRICT:
-            raise PDFTypeError("Int or Float required: %r" % x)
+            raise PDFTypeError("Int or Float required: %.100r" % x)
         return 0
     return x
 
